@@ -422,6 +422,8 @@ package client
 //@   safety C08
 //@   bind t int := call client.(*Conn).rateLimit 1
 //@   bind a int := ghost client.(*Conn).rateLimit 1 a
+//@   bind werr error := after bufio.(*Writer).WriteString 1 result1
+//@   bind ferr error := call bufio.(*Writer).Flush 1
 //@   requires ioOK(conn)
 //@   requires [C10] !conn.cfg.Flood ==> len(line) <= 4294967296 && 0 <= conn.badness && conn.badness <= 4611686018427387904
 //@   requires [C10] !conn.cfg.Flood ==> 0 <= conn.lastsent && conn.lastsent <= $now && $now <= 4611686018427387904
@@ -441,6 +443,7 @@ package client
 //@      && conn.lastsent >= old($now) && conn.lastsent <= 4611686018427387904 && $now >= conn.lastsent + t && $now <= 4611686018427387904
 //@   ensures [C10] $now >= old($now)
 //@   ensures [C20] forall k int :: old($loglen) <= k && k < $loglen && $log[k].kind == kindof("logarg") ==> $log[k].str == "" || $log[k].str == masked(line)
+//@   ensures [C20] result == nil || result == werr || result == ferr
 //@ end
 
 // Package-level closure obligations (decided by scanning the SSA of every
@@ -936,6 +939,8 @@ package client
 // which logs the masked form.
 //@ closure [C20] field_access Config.Pass in (*Conn).h_REGISTER, (*Conn).ConnectToContext
 //@ closure [C20] callers (*Conn).Pass in (*Conn).h_REGISTER
+// no log record or formatted string is built from a value that contains the Config (and so the password)
+//@ closure [C20] format_args_exclude Config in (none)
 
 // ---------------------------------------------------------------------------
 // handlers.go: capability sets. Safety (C02): these run inside built-in
